@@ -30,7 +30,12 @@ def jobs(tier):
     qs = ["11"] if tier == "quick" else ["11", "L", "q1024"]
     for qn in qs:
         for fl in ("AB", "SS"):
-            for variant in ("same", "M", "N", "MN", "gen") if fl == "AB" else ("same", "S", "gen"):
+            variants = ("same", "M", "N", "MN", "gen") if fl == "AB" else ("same", "S", "gen")
+            if qn == "L":
+                variants = ("same", "M", "N") if fl == "AB" else ("same", "S")      # nonlinear mod a 252-bit prime: costly
+            elif qn != "11":
+                variants = ("same",)
+            for variant in variants:
                 lens = [("W", "W")] if variant != "same" else [("W", "W"), ("W+1", "W"), ("W", "W+2"), ("0", "W"), ("1", "1"), ("W-1", "W")]
                 for (la, lb) in lens:
                     js.append(("job_tamper", dict(_name="q=%s %s params=%s delivered=(%s,%s)" % (qn, fl, variant, la, lb),
